@@ -302,7 +302,10 @@ def project(raw_path, crashed):
     out = {}
     for sid, evs in per.items():
         evs.sort(key=lambda e: e["seq"])
-        if not evs or evs[0]["ev"] != "init":
+        # the tracer's scenario id is process-global: leftovers of the previous scenario of this child may precede "init"
+        while evs and evs[0]["ev"] != "init":
+            evs.pop(0)
+        if not evs:
             continue
         ended = evs[-1]["ev"] == "end"
         if not ended and sid not in crashed and not any(e["ev"] == "proc" for e in evs):
